@@ -15,7 +15,7 @@ class Boom(Exception):
 
 @harness(['C15'], 'supp.server.Server.process', twins=('spec-errors-propagate',))
 def process_containment(run, twin=None):
-    """process(name, args, kwargs): the named method is an opaque call that returns a value or raises any Exception (unknown name ->
+    """process(name, args, kwargs): the named method is an opaque call that returns a value or raises any Exception or SystemExit (unknown name ->
     AttributeError, wrong arguments -> TypeError, failing request -> anything): process never raises; (value, True) iff the method
     returned value, otherwise ((exception class name, str(exception)), False); the server object is not modified; an attribute of the server
     that is no request (run, process, conn, dunder methods) is reported like an unknown method and never called"""
@@ -26,7 +26,7 @@ def process_containment(run, twin=None):
 
     class Srv(Sv.Server):
         # the real class with four more requests (whatever the class uses to tell requests from its other attributes is inherited)
-        requests = tuple(getattr(Sv.Server, 'requests', ())) + ('ok', 'bad', 'keyerr', 'mute')
+        requests = tuple(getattr(Sv.Server, 'requests', ())) + ('ok', 'bad', 'keyerr', 'mute', 'leaves', 'surrogate')
 
         def __init__(self):
             pass
@@ -46,6 +46,12 @@ def process_containment(run, twin=None):
         def keyerr(self):
             raise KeyError('k')
 
+        def leaves(self):
+            raise SystemExit('leaving')
+
+        def surrogate(self):
+            raise ValueError('bad \udc80 name')
+
         def mute(self):
             class Mute(Exception):
                 def __str__(self):
@@ -56,6 +62,10 @@ def process_containment(run, twin=None):
              ('ok', (1,), {'k': 2}, (('value', 1, 2), True)),
              ('bad', (1,), {}, (('Boom', 'request failed: 1'), False)),
              ('keyerr', (), {}, (('KeyError', "'k'"), False)),
+             # code that calls sys.exit() ends its request, not the session
+             ('leaves', (), {}, (('SystemExit', 'leaving'), False)),
+             # a message the codec cannot carry as it stands arrives escaped, and can be encoded
+             ('surrogate', (), {}, (('ValueError', 'bad \\udc80 name'), False)),
              ('nosuchmethod', (), {}, (('AttributeError', None), False)),
              # attributes of the server that are no requests: reported like an unknown method, never called
              ('run', (), {}, ((None, None), False)), ('process', ('ok', (1,), {}), {}, ((None, None), False)), ('helper', (), {}, ((None, None), False)),
@@ -71,7 +81,7 @@ def process_containment(run, twin=None):
             try:
                 got = f(s, name, args, kwargs)
                 exc = None
-            except Exception as e:
+            except BaseException as e:
                 got, exc = None, e
             run.case = '%s%r' % (name, args)
             if twin and not want[1]:
@@ -104,11 +114,15 @@ class Conn(object):
         self.w.log.append(('poll', r))
         return r
 
-    def recv_bytes(self):
+    def recv_bytes(self, maxlength=None):
         c = core.choice(2)
         if c == 0:
             self.w.log.append(('recv', 'eof'))
             raise EOFError()
+        if maxlength is not None and core.choice(2):
+            # a limit on what is read: a request may be longer than any limit (multiprocessing raises OSError and the message is lost)
+            self.w.log.append(('recv', 'too long'))
+            raise OSError('bad message length')
         self.w.log.append(('recv', 'bytes'))
         return b'<message>'
 
@@ -340,6 +354,13 @@ REQUESTS = {
     'eval-binds-a-global': ('eval', ('global leaked\nleaked = 41\nreturn leaked + 1',), {}),
     'eval-reads-what-an-earlier-eval-bound': ('eval', ('return [leaked, result]',), {}),
     'eval-reads-the-wrapper': ('eval', ('return boo.__name__ + str(result)',), {}),
+    # a request of several MiB
+    'lint-3MiB': ('lint', ('import os\n# ' + 'x' * (3 << 20) + '\nprint(sys)\n', 'f.py'), {}),
+    # the code a request runs ends the interpreter: the request fails, the session goes on
+    'eval-raises-SystemExit': ('eval', ('raise SystemExit("leaving")',), {}),
+    'eval-calls-sys-exit': ('eval', ('import sys\nsys.exit("bye")',), {}),
+    # a message that cannot be encoded as it stands (a lone surrogate): what can be encoded of it arrives, the rest escaped
+    'raises-with-a-lone-surrogate': ('eval', ('raise ValueError("bad \\udc80 name")',), {}),
     # attributes of the server object that are no requests
     'attribute-run': ('run', (), {}),
     'attribute-process': ('process', ('eval', ('return 1',), {}), {}),
@@ -392,9 +413,12 @@ def play_sequence(seq):
                     raise EOFError('no client')
             return bool(self.inbox)
 
-        def recv_bytes(self):
+        def recv_bytes(self, maxlength=None):
             if not self.inbox:
                 raise EOFError()
+            if maxlength is not None and len(self.inbox[0]) > maxlength:
+                self.inbox.pop(0)
+                raise OSError('bad message length')          # as multiprocessing.connection does
             return self.inbox.pop(0)
 
         def send_bytes(self, b):
@@ -468,7 +492,7 @@ def _play(seq, root, Sv, Wire, dumps, loads):
                 else:
                     r = getattr(ref, name)(*args, **kwargs)
                 applied.append((name, args, kwargs))
-            except Exception:
+            except BaseException:
                 ref = fresh(applied)
                 raise
             try:
@@ -478,16 +502,17 @@ def _play(seq, root, Sv, Wire, dumps, loads):
                 want.append((_lists(r), True))
             except Exception:
                 want.append(('error', 'Serialize error'))
-        except Exception as e:
+        except (Exception, SystemExit) as e:
             try:
-                want.append(('error', str(e)))
+                # (characters UTF-8 cannot carry - lone surrogates - arrive escaped: the message as far as it can travel)
+                want.append(('error', str(e).encode('utf-8', 'backslashreplace').decode('utf-8')))
             except Exception:
                 want.append(('error', None))          # the exception has no printable message: any message will do
     return got, want, ended
 
 
 @harness(['C15'], 'supp.server.Server.run / process over the real codec [request sequences]',
-         bounded='every sequence of 1 and 2 requests, and every failing request followed by two good ones, over 20 request kinds (4 that succeed; non-ASCII text in a source, a result and a message; run and process asked for as requests; unknown '
+         bounded='every sequence of 1 and 2 requests, and every failing request followed by two good ones, over 24 request kinds (4 that succeed; a lint of a 3 MiB source; code that raises SystemExit / calls sys.exit; a message with a lone surrogate; non-ASCII text in a source, a result and a message; run and process asked for as requests; unknown '
                  'method, wrong arguments, exception, unserialisable result (flat and nested), syntax error in the request, an exception whose str() raises); '
                  'a result with nested tuples as map keys; 6 configure requests (2 valid, 4 failing: bad dyn_modules, no sources, not a map, wrong arguments) '
                  'before and between 3 questions whose answer depends on the configured source roots (71 sequences of 2 to 4 requests)')
@@ -525,4 +550,51 @@ def request_sequences(run):
             prove('sequence:%s' % '+'.join(seq), ok,
                   clause='replies == in-process answers, in order, and the loop survives [%r vs %r; ended by close: %s]' % (got, want, ended), path=path)
             core.RUN.concretise = None
+    core.explore(lambda: None, lambda p, out: go(p))
+
+
+
+@harness(['C15'], 'supp/server.py as the process the client launches [module search path]',
+         bounded='one real server process launched by the real Environment: 2 requests')
+def launched_server_search_path(run):
+    """BOUNDED: the process Environment launches answers about the caller's modules, not about its own: the directory of supp's own files
+    (which Python puts first on the path of a script) is no root of the module search - `import umsgpack` in the edited file is not supp's
+    codec.  One run of the real script; not counted as proved."""
+    import os
+    import supp.remote as R
+
+    def go(path):
+        env = R.Environment()
+        here = os.path.dirname(os.path.abspath(R.__file__))
+        devnull = os.open(os.devnull, os.O_WRONLY)
+        saved = os.dup(2)
+        try:
+            os.dup2(devnull, 2)
+            try:
+                roots = env.eval('import sys, os\nreturn [os.path.abspath(p) for p in sys.path]')
+                env.configure({'sources': ['/nonexistent']})
+                match, names = env.assist('import umsg', (1, 11), '/nonexistent/edited.py')
+            finally:
+                env.close()
+                proc = getattr(env, 'proc', None)
+                if proc is not None:
+                    try:
+                        proc.wait(10)
+                    except Exception:
+                        proc.kill()
+        finally:
+            os.dup2(saved, 2)
+            os.close(saved)
+            os.close(devnull)
+        script = ('import sys, os; sys.path.insert(0, %r)\nfrom supp.remote import Environment\nenv = Environment()\n'
+                  'try:\n    roots = env.eval("import sys, os\\nreturn [os.path.abspath(p) for p in sys.path]")\n    env.configure({"sources": ["/nonexistent"]})\n'
+                  '    names = env.assist("import umsg", (1, 11), "/nonexistent/edited.py")[1]\nfinally:\n    env.close()\n'
+                  'here = %r\nprint("module search path of the server:", roots[:3], "...")\nprint("import umsg| proposes", names)\n'
+                  'print("REPRODUCED: the directory of supp\'s own files is a root of the module search of the launched server" if here in roots or "umsgpack" in names else "not reproduced")\n'
+                  ) % (core.REPO, here)
+        core.RUN.concretise = lambda model, ob: {'input': 'import umsg|', 'script': script}
+        prove('own-directory-is-no-search-root', here not in roots, clause='sys.path of the launched server does not hold %r [%r ...]' % (here, roots[:3]), path=path)
+        prove('own-modules-are-not-proposed-as-top-level-modules', 'umsgpack' not in names,
+              clause='`import umsg` proposes %r: supp\'s own umsgpack.py is no top-level module of the project' % (names,), path=path)
+        core.RUN.concretise = None
     core.explore(lambda: None, lambda p, out: go(p))
